@@ -190,6 +190,36 @@ class Definition(Sub):
             out.fail(sig + 'depends-on-memory-layout', '%s gives a different result for strided views of r / gamma / potential than for contiguous arrays' % which)
         if any(not np.all(b_[1::2] == 123.5) for b_ in bufs) or not (np.array_equal(bufs[0][0::2], r) and np.array_equal(bufs[1][0::2], gamma) and np.array_equal(bufs[2][0::2], u)):
             out.fail(sig + 'purity/input-modified', '%s.calculate wrote into the buffer behind a strided view of its inputs' % which)
+        # write-protected inputs (a closure never needs to write into r, gamma or the potential) and integer-typed gamma
+        ro = [a.copy() for a in (r, gamma, u)]
+        for a in ro:
+            a.setflags(write=False)
+        clo_r = make_closure(which, spec['alias'], flag)
+        clo_r.potential = ro[2]
+        clo_r.sigma = sigma
+        try:
+            with np.errstate(all='ignore'):
+                c_r = np.asarray(clo_r.calculate(ro[0], ro[1]))
+            if c_r.shape != c.shape or not np.array_equal(c_r, c, equal_nan=True):
+                out.fail(sig + 'depends-on-memory-layout', '%s gives a different result for write-protected inputs' % which)
+        except (ValueError, TypeError) as exc:
+            out.fail(sig + 'purity/needs-writable-inputs', '%s.calculate raised %s: %s for write-protected r / gamma / potential' % (which, type(exc).__name__, exc))
+        if float(np.max(np.abs(gamma))) < 1e9:
+            gi = np.rint(gamma).astype(np.int64)
+            clo_i = make_closure(which, spec['alias'], flag)
+            clo_i.potential = u.copy()
+            clo_i.sigma = sigma
+            clo_f = make_closure(which, spec['alias'], flag)
+            clo_f.potential = u.copy()
+            clo_f.sigma = sigma
+            try:
+                with np.errstate(all='ignore'):
+                    c_i = np.asarray(clo_i.calculate(r.copy(), gi))
+                    c_f = np.asarray(clo_f.calculate(r.copy(), gi.astype(float)))
+                if c_i.shape != c_f.shape or not np.array_equal(np.asarray(c_i, dtype=float), c_f, equal_nan=True):
+                    out.fail(sig + 'depends-on-dtype', '%s gives a different result for integer-typed gamma than for the same values as floats' % which)
+            except (ValueError, TypeError) as exc:
+                out.fail(sig + 'depends-on-dtype', '%s.calculate raised %s: %s for integer-typed gamma' % (which, type(exc).__name__, exc))
         # (3) elementwise: random sub-sample in random order
         if n >= 2:
             m = int(rng.integers(1, n + 1))
